@@ -94,6 +94,11 @@ def directed() -> list[dict[str, Any]]:
     return out
 
 
+def _sync(desc: dict[str, Any], seed: int, i: int) -> dict[str, Any]:
+    from kv.world import syncify
+    return syncify(desc, random.Random(f'C02-sync-{seed}-{i}'))       # a share of the scenarios runs (some of) its handlers as threads
+
+
 def gen_cases(tier: str, seed: int):
     rng = random.Random(f'C02-{seed}')
     cases: list[dict[str, Any]] = []
@@ -107,7 +112,7 @@ def gen_cases(tier: str, seed: int):
             cases.append({'name': f"{d['name']}-restart{t_stop}", 'desc': dd, 'enumerate_kills': False})
     n = 1200 if tier == "quick" else 40000
     for i in range(n):
-        cases.append({'name': f'rnd{i}', 'desc': random_desc(rng, i), 'enumerate_kills': False})
+        cases.append({'name': f'rnd{i}', 'desc': _sync(random_desc(rng, i), seed, i), 'enumerate_kills': False})
     return cases
 
 
